@@ -190,7 +190,9 @@ func checkC06(c *Check) {
 	cp := L.ByRel["src/compiler"]
 	lenField := int64(1)
 	if obj := cp.Types.Scope().Lookup("list_len_field_index"); obj != nil {
-		if cst, ok := obj.(interface{ Val() interface{ String() string } }); ok {
+		if cst, ok := obj.(interface {
+			Val() interface{ String() string }
+		}); ok {
 			fmt.Sscan(cst.Val().String(), &lenField)
 		}
 	}
